@@ -15,7 +15,7 @@ P = (1 << 2048) - 1
 
 
 def gen_wipe(rng, tier, mult):
-    n = (250 if tier == "quick" else 4000) * mult
+    n = (6000 if tier == "quick" else 40000) * mult
     cases = []
     lens = [0, 1, 55, 56, 63, 64, 65, 119, 120, 128, 200]
     for ci in range(n):
